@@ -10,7 +10,7 @@ import struct
 
 __all__ = ["forall", "exists", "implies", "ite", "seq_eq_at", "unchanged", "is_nan", "is_finite", "f32_round",
            "float_eq", "f32_bytes", "f64_bytes", "ghost", "fresh_int", "f32_of_bytes", "f64_of_bytes", "prefix_sum", "fresh_bool",
-           "region_of", "region_size", "key_of", "reach", "reach_transitive", "reach_closed", "reach_depth", "field_seq"]
+           "region_of", "region_size", "key_of", "reach", "reach_transitive", "reach_closed", "reach_depth", "field_seq", "has_attr_text"]
 
 
 def forall(lo, hi, fn):
@@ -143,3 +143,8 @@ def reach_depth(region, field, depth_field):
 def field_seq(region, field):
     """The values of one scalar field of all objects of a region, in key order, as a sequence (for prefix sums etc.)."""
     return [getattr(o, field) for o in region]
+
+
+def has_attr_text(obj, name):
+    """getattr(obj, name, None) is not None - the predicate the engine uses for lookups by a symbolic name."""
+    return getattr(obj, name, None) is not None
